@@ -17,6 +17,9 @@ import (
 	"fmt"
 	"net"
 	"net/netip"
+	"net/http"
+	"net/http/httptest"
+	"net/url"
 	"strings"
 	"testing"
 	"time"
@@ -25,7 +28,10 @@ import (
 
 	"github.com/mycoria/mycoria/api/dns"
 	"github.com/mycoria/mycoria/config"
+	"github.com/mycoria/mycoria/dashboard"
 	"github.com/mycoria/mycoria/mgr"
+	"github.com/mycoria/mycoria/router"
+	"github.com/mycoria/mycoria/storage"
 
 	"verif/core"
 	"verif/ids"
@@ -33,6 +39,16 @@ import (
 )
 
 var c19Opts = core.Opts{ID: "C19", Quick: 6000, Thorough: 300000}
+
+// c19Inst is what the dashboard needs of an instance.
+type c19Inst struct {
+	*vnet.Node
+	srv *dns.Server
+}
+
+func (i *c19Inst) Storage() storage.Storage { return i.Node.Store }
+func (i *c19Inst) DNS() *dns.Server         { return i.srv }
+func (i *c19Inst) Router() *router.Router   { return i.Node.Rtr }
 
 type c19Conn struct{}
 
@@ -130,7 +146,39 @@ func TestC19(t *testing.T) {
 			}
 			name := lbl + ".myco" // the dashboard stores cleaned names
 			ip := ipOf("mapping.ip")
-			if err := node.Store.SaveMapping(name, ip); err != nil {
+			if c.Chance("mapping.via-dashboard", 1, 2) {
+				// Through the dashboard's confirmation handler, with the name as a
+				// browser puts it into the URL path: any case, unicode form for IDN.
+				raw := name
+				if lbl == c19Puny || strings.HasSuffix(lbl, "."+c19Puny) {
+					raw = strings.ReplaceAll(raw, c19Puny, c19IDN)
+				}
+				if c.Bool("mapping.upper") {
+					rs := []rune(raw)
+					k := c.Pick("mapping.upper.at", len(rs))
+					if rs[k] >= 'a' && rs[k] <= 'z' {
+						rs[k] -= 'a' - 'A'
+					}
+					raw = string(rs)
+				}
+				dash := dashboard.VerifNew(&c19Inst{Node: node}, []byte("0123456789abcdef0123456789abcdef"))
+				tok, err := dash.CreateRequestToken("create domain mapping", name, ip.String())
+				if err != nil {
+					c.Fatalf("request token: %v", err)
+				}
+				form := url.Values{"nonce": {tok.Nonce}, "token": {tok.Token}}
+				req := httptest.NewRequest(http.MethodPost, "/open/"+url.PathEscape(raw)+"/"+ip.String()+"/", strings.NewReader(form.Encode()))
+				req.Header.Set("Content-Type", "application/x-www-form-urlencoded")
+				rec := httptest.NewRecorder()
+				func() {
+					defer func() { _ = recover() }() // the redirect page needs templates this bare dashboard lacks
+					dash.VerifMux().ServeHTTP(rec, req)
+				}()
+				if rec.Code == http.StatusBadRequest {
+					c.Fatalf("dashboard refused to map %q (cleaned %q) to %s: %s", raw, name, ip, rec.Body.String())
+				}
+				c.Class("mapping-created-through-dashboard")
+			} else if err := node.Store.SaveMapping(name, ip); err != nil {
 				c.Fatalf("save mapping: %v", err)
 			}
 			mMapping[name] = ip
